@@ -1031,3 +1031,82 @@ Proof.
     apply nres_app_quiet; [apply H; left; reflexivity | left; reflexivity].
 Qed.
 End Module.
+
+(* ================================================================ soundness *)
+Section Sound.
+Variable m : module.
+
+(* hypothesis of the partial soundness theorem: wherever a component is an
+   untagged type reference, either its outermost tag can be fetched or it has
+   no tags at all — i.e. no component is an untagged reference to (a chain of
+   references ending in) an untagged CHOICE *)
+Definition chref_free : Prop :=
+  forall t, In t (all_types m) -> comps_transparent m (comps_of_ty t).
+
+Lemma terminal_nonref : forall fuel t, ~ is_reference t -> terminal m fuel t = Some t.
+Proof. intros fuel t H. destruct fuel, t; simpl in *; try reflexivity; tauto. Qed.
+
+Lemma terminal_resolves : forall fuel r t, terminal m fuel (TRef r) = Some t -> resolves m r.
+Proof.
+  induction fuel as [|f IH]; intros r t H; simpl in H;
+    (destruct (lookup m r) as [d|] eqn:L; [|discriminate]); [discriminate|].
+  destruct (d_ty d) as [pr|items|k r1 ext r2|e|r'] eqn:T;
+    try (apply Res_end with d; [exact L | rewrite T; simpl; tauto]).
+  apply Res_step with d r'; [exact L | exact T | eapply IH; exact H].
+Qed.
+
+Lemma when_nil : forall b r, when b r = [] -> b = false.
+Proof. destruct b; simpl; intros; [discriminate | reflexivity]. Qed.
+
+Lemma check_node_sound : forall fuel p t,
+  comps_transparent m (comps_of_ty t) -> check_node m fuel p t = NOk [] -> type_ok m t.
+Proof.
+  intros fuel p t Hc H. destruct t as [pr|items|k r1 ext r2|e|r]; simpl type_ok.
+  - exact I.
+  - simpl in H. inversion H as [E]. apply app_eq_nil in E. destruct E as [E1 E2].
+    apply when_nil in E1. apply when_nil in E2. split.
+    + apply dup_in_NoDup. exact E2.
+    + apply enum_val_clash_sound. exact E1.
+  - unfold check_node in H.
+    change (match k with KSeq => true | _ => false end) with (seq_flag k) in H.
+    destruct (scan_all m fuel (seq_flag k) (members (m_tagging m) p r1 ext r2)) as [|c] eqn:S; [discriminate|].
+    inversion H as [E]. apply app_eq_nil in E. destruct E as [E1 E2].
+    apply app_eq_nil in E1. destruct E1 as [E1 _]. apply when_nil in E1.
+    apply when_nil in E2. subst c.
+    split.
+    + apply dup_in_NoDup. exact E1.
+    + exact (cons_tags_sound m fuel p k r1 ext r2 Hc S).
+  - exact I.
+  - simpl in H. inversion H as [E]. apply when_nil in E.
+    destruct (lookup m r) as [d|] eqn:L; [|discriminate].
+    destruct (terminal m (length (m_defs m)) (d_ty d)) as [t|] eqn:T; [|discriminate].
+    eapply (terminal_resolves (term_fuel m) r t). unfold term_fuel. simpl. rewrite L. exact T.
+Qed.
+
+Lemma check_defs_ok : forall fuel ds, check_defs m fuel ds = NOk [] ->
+  forall d, In d ds -> check_def m fuel d = NOk [].
+Proof.
+  induction ds as [|d0 ds IH]; intros H d Hin; [contradiction|].
+  simpl in H. apply nres_app_ok in H. destruct H as [H1 H2].
+  destruct Hin as [E|Hin]; [subst; exact H1 | apply IH; assumption].
+Qed.
+
+Lemma accept_fix_ok : check m = Accept -> fix_module m = NOk [].
+Proof.
+  unfold check. destruct (fix_module m) as [|rs]; [discriminate|].
+  destruct rs; [reflexivity | discriminate].
+Qed.
+
+Theorem distinct_sound_partial : check m = Accept -> chref_free -> distinct_spec m.
+Proof.
+  intros Hacc Hfree t Hin.
+  apply accept_fix_ok in Hacc. unfold fix_module in Hacc.
+  apply nres_app_ok in Hacc. destruct Hacc as [_ Hd].
+  unfold all_types in Hin. apply in_flat_map in Hin. destruct Hin as [d [Hd1 Hd2]].
+  pose proof (check_defs_ok _ _ Hd d Hd1) as Hdef. unfold check_def in Hdef.
+  apply nres_app_ok in Hdef. destruct Hdef as [_ Hty].
+  destruct (check_ty_ok m _ _ _ Hty t Hd2) as [p' Hp'].
+  eapply check_node_sound; [|exact Hp'].
+  apply Hfree. unfold all_types. apply in_flat_map. exists d. auto.
+Qed.
+End Sound.
